@@ -58,3 +58,54 @@ func hC19(p, T int) {
 }
 
 func H_C19_alloc() { c := vCase(); hC19(c%2, 6+3*(c/2)) }
+
+// H_C19_segs: three segments, each one valid record followed by a damaged record
+// header (6 fully symbolic bytes + 3 more). Replay work must stay proportional to
+// the bytes present: every valid record is handed out exactly once, in order, the
+// iterator ends after at most one pass, and the allocation budget of H_C19_alloc
+// holds for the whole pass.
+func H_C19_segs() {
+	opts := (&Options{FileSystem: fs.Mem}).copyWithDefaults("c19s")
+	fsys := opts.FileSystem
+	dl := &datalog{opts: opts}
+	var segs []*segment
+	present := 0
+	for i := 0; i < 3; i++ {
+		k := vBytes("rk", 2)
+		v := vBytes("rv", 1)
+		body := refEncode(k, v, false)
+		tail := vBytes("tail", 9)
+		// the damaged header claims more than the 3 bytes that follow it
+		kl := uint32(tail[0]) | uint32(tail[1])<<8
+		vl := (uint32(tail[2]) | uint32(tail[3])<<8 | uint32(tail[4])<<16 | uint32(tail[5])<<24) & 0x7fffffff
+		vAssume(kl+vl > 3)
+		name := segmentName(uint16(i), uint64(i+1))
+		vWriteFile(fsys, name, refHeader(), body, tail)
+		present += headerSize + len(body) + len(tail)
+		seg, err := dl.openSegment(name, uint16(i), uint64(i+1))
+		vAssert(err == nil, "C19s.opensegment")
+		if err != nil {
+			return
+		}
+		segs = append(segs, seg)
+	}
+	budget := 2*present + 64<<10
+	vFlag("allocBudget", budget)
+	it := newRecoveryIterator(segs)
+	n := 0
+	for ; n < 16; n++ {
+		rec, err := it.next()
+		if err == ErrIterationDone {
+			break
+		}
+		vAssert(err == nil, "C19s.iter.err")
+		if err != nil {
+			return
+		}
+		vAssert(n < 3 && int(rec.segmentID) == n, "C19s.each-valid-record-is-replayed-once-in-order")
+	}
+	vFlag("allocBudget", 1<<40)
+	vAssert(n == 3, "C19s.one-pass-over-the-segments")
+	vAssert(vCounter("steps") < 400000, "C19s.steps.bounded")
+	vCover("C19s.done")
+}
